@@ -566,7 +566,11 @@ def observe_class(obj, names, candidates, ctx):
                 back = Deserializer(obj).deserialize(doc)
                 des = repr(sorted((n, E.reify(getattr(back, n), S.struct_attrs)) for n in names))
             except Exception as ex:  # noqa
-                des = "deserialize-raises:" + E.exn_name(ex)
+                # with several members that do not survive the round trip, WHICH error surfaces first follows the
+                # order of declaration, which the property does not speak about
+                xn = E.exn_name(ex)
+                des = "deserialize-raises:" + ("TypeError|ValueError" if len(names) > 1 and xn in
+                                                ("TypeError", "ValueError") else xn)
         out["beh"].append(("ok", state, ser, des))
     return out
 
@@ -1101,6 +1105,16 @@ def run(rep, tier):
                     c.pop("cands", None)
         timing["oracle"] = round(time.time() - t1, 1)
         t1 = time.time()
+        # spelled expressions bound to a name and re-used by several declarations (harness/c13_alias.py)
+        from harness import c13_alias as AL
+        alias_cases = AL.lattice_cases(tier)
+        for _ in range(60 if tier == "quick" else 600):
+            ac = AL.random_case(rnd, gen_semantic_field, ctx, max_depth)
+            if ac:
+                alias_cases.append(ac)
+        AL.run_cases(rep, alias_cases, ctx, rnd, per_field, sys.modules[__name__])
+        timing["alias-modules"] = round(time.time() - t1, 1)
+        t1 = time.time()
         # correspondence cases: every spelling used, in its own context, plus Cls[...] context and corruptions
         seen = set()
         spell_cases = []
@@ -1137,6 +1151,11 @@ def run(rep, tier):
                             (d["annot"] or rnd.random() < 0.1) and (c.get("lattice") or rnd.random() < 0.5):
                         seen.add(fk)
                         fut_cases.append(d)
+        for ac in alias_cases:
+            for st in ac["steps"]:
+                for fd in st["fields"]:
+                    if not P.has_lit(fd["ty"]):
+                        add_spell("annot" if fd["annot"] else "assign", P.inline(fd["ty"]))
         limit = 3000 if tier == "quick" else 12000
         spell_cases = spell_cases[:limit]
         decl_cases = decl_cases[:limit]
@@ -1253,7 +1272,11 @@ def run(rep, tier):
              "around the __future__ bound, one-item Tuple fields (4 item kinds x uniqueItems) in every spelling; candidate values = valid / one-point corruption / arbitrary / None / absent per "
              "member, plus deserialization of the serialized form; correspondence cases = every distinct (context, spelling) "
              "and declaration used (lattices first), Cls[...] context and wrong-kind corruptions, and the declarations again "
-             "under the __future__ import with the length of the stored annotation text; distinct = distinct spelling "
+             "under the __future__ import with the length of the stored annotation text; alias modules = a spelling bound "
+             "to a name N and 2-5 classes using N alone / under another field name / with a default / as an operand of |, "
+             "Optional, Union, list, Array, AnyOf, OneOf, Tuple, Map (lattice: every alias form x every use between two "
+             "plain uses; plus random), each class observed after every step and compared with the written-out module; "
+             "distinct = distinct spelling "
              "signatures" % max_depth)
 
 
@@ -1261,6 +1284,9 @@ def replay(obj):
     ctx = S.Context()
     workdir = core.workdir("c13replay")
     try:
+        if "alias_case" in obj:
+            from harness import c13_alias as AL
+            return AL.replay(obj, ctx, sys.modules[__name__])
         if "spec_decl" in obj:
             dc = obj["spec_decl"]
             dc = dict(dc, ty=_tuplify(dc["ty"]), eq=_tuplify(dc["eq"]), kw=_tuplify(dc["kw"]))
@@ -1325,7 +1351,7 @@ def _tuplify(x):
 def _is_plain_list(x):
     """JSON turned tuples into lists: a tagged node starts with a tag string followed by non-string payload or
     is a known tag; argument lists contain nodes (lists) only."""
-    tags = {"name", "none", "bare", "typing", "pep585", "optional", "union", "or", "fcls", "inst", "struct", "sub",
+    tags = {"alias", "lit", "name", "none", "bare", "typing", "pep585", "optional", "union", "or", "fcls", "inst", "struct", "sub",
             "ctor1", "ctorN", "int", "flt", "dec", "str", "bool", "list", "tuple", "deque", "set", "dict", "enum",
             "struct", "other"}
     return x[0] not in tags
